@@ -130,11 +130,31 @@ def gen_program(seed):
 
 CALLER_MACROS = set()
 
+# hand-written programs deeper than the generator goes: a name defined in a non-top-level scope, two or more scopes that do not
+# mention it, then a conditional assignment and reads in the innermost scope
+_O = lambda n: ("out", ("v", n))      # noqa: E731
+DEEP = [
+    [("nsinit", "ns", "a", ("c", 0)),
+     ("with", "x", ("c", 5), [("for", "z", "ys", [("for", "i", "xs", [("if", 0, [("set", "x", ("c", 9)), _O("x")], None), _O("x")], None, False)], None, False), _O("x")]), _O("x")],
+    [("nsinit", "ns", "a", ("c", 0)),
+     ("for", "x", "ys", [("with", "y", ("c", 1), [("for", "i", "xs", [("if", 1, [_O("x"), ("set", "x", ("v", "i")), _O("x")], [_O("x")]), _O("x")], None, False)]), _O("x")], None, False), _O("x")],
+    [("nsinit", "ns", "a", ("c", 0)),
+     ("macro", "m1", ["p"], [("with", "y", ("c", 2), [("for", "i", "xs", [("if", 2, [("set", "p", ("c", 8))], None), _O("p")], None, False)]), _O("p"), ("text", "M")]),
+     ("callm", "m1", [("v", "g")]), ("set", "x", ("c", 3)), ("callm", "m1", [("v", "x")])],
+    [("nsinit", "ns", "a", ("c", 0)),
+     ("for", "i", "xs", [("set", "z", ("v", "i")), ("with", "y", ("c", 2), [("filterblock", [("if", 2, [("set", "z", ("c", 0))], None), _O("z")]), _O("z")]), _O("z")], None, False), _O("z")],
+    [("nsinit", "ns", "a", ("c", 0)), ("set", "y", ("c", 4)),
+     ("with", "x", ("v", "g"), [("setblock", "z", [("for", "i", "ys", [("if", 3, [("set", "x", ("vd", "x", 1)), _O("x")], [("set", "y", ("c", 6))]), _O("x"), _O("y")], None, False)]), _O("z"), _O("x"), _O("y")]),
+     _O("x"), _O("y")],
+    [("nsinit", "ns", "a", ("c", 0)),
+     ("for", "x", "xs", [("for", "y", "ys", [("with", "z", ("c", 1), [("if", 0, [("if", 1, [("set", "x", ("c", 7))], [("set", "y", ("c", 8))])], None), _O("x"), _O("y")])], None, False), _O("x")], None, False)],
+]
+
 
 def setup(param):
     global P, PROG, T, TR
     P = dict(param or {})
-    PROG = gen_program(P.get("prog", 0))
+    PROG = DEEP[P["deep"]] if P.get("deep") is not None else gen_program(P.get("prog", 0))
     env = AENV if P.get("asyncm") else ENV
     T = env.from_string(M.pstmts(PROG, M.ident))
     TR = []
@@ -213,4 +233,9 @@ def conditions(tier, seed):
         out.append(Cond(f"program#{pid}{'[async]' if asyncm else ''}", "prog_ok", mode="A", param={"prog": pid, "asyncm": asyncm}, timeout=to,
                         witnesses=[[[True, False, True, False], [5, 1], [2], 3, 7], [[False] * 4, [], [], 0, 0], [[True] * 4, [4], [6, 6], 5, -1]],
                         bounds="one generated program (depth <= 3): any 4 branch bools, any int lists xs, ys of length <= 2, any loop-filter threshold t and context value g; plus one of 3 consistent renamings (rotating with the program number)"))
+    for k in range(len(DEEP)):
+        for asyncm in (False, True):
+            out.append(Cond(f"deep program#{k}{'[async]' if asyncm else ''}", "prog_ok", mode="A", param={"deep": k, "prog": k, "asyncm": asyncm}, timeout=to * 2,
+                            witnesses=[[[True, False, True, False], [5, 1], [2], 3, 7], [[False] * 4, [], [], 0, 0], [[True] * 4, [4], [6, 6], 5, -1], [[False, True, False, True], [1, 2], [3], 0, 2]],
+                            bounds="hand-written program with a definition two or more scopes above a conditional assignment: any 4 branch bools, int lists of length <= 2, any context value"))
     return out
